@@ -1,0 +1,13 @@
+//go:build verif
+
+package routing
+
+// Hooks for the out-of-tree verification harness (build tag verif), property C07.
+
+import (
+	"github.com/dtn7/dtn7-go/pkg/agent"
+)
+
+// VerifAgentMux returns the AgentManager's multiplexer, so that the harness can put barrier
+// messages behind a delivery and count the registered agents.
+func (c *Core) VerifAgentMux() *agent.MuxAgent { return c.agentManager.mux }
